@@ -1,3 +1,3 @@
 From Coq Require Import ExtrOcamlBasic ExtrOcamlString.
-From FoVerif Require Import Core.Unify Core.Infer Core.Resolver.
-Extraction "x_c02.ml" infer_fun infer_ambiguous infer_open_named sig_to_go infer_fun_resolver solve resolve_type unify app_seq.
+From FoVerif Require Import Core.Unify Core.Infer Core.Resolver Core.ResolverBound.
+Extraction "x_c02.ml" infer_fun infer_ambiguous infer_open_named sig_to_go infer_fun_resolver solve resolve_type unify app_seq bsolve_rels bsolve bound_fuel.
